@@ -108,3 +108,13 @@ PROPS['C19'] = dict(
     unreached=[],
     explanation='',
 )
+
+PROPS['C09'] = dict(
+    level='proof',
+    contracts=['base_taskq'],
+    drivers=[],
+    assumptions=[FLOATS],
+    trusted_base=[],
+    unreached=[],
+    explanation='',
+)
